@@ -117,7 +117,12 @@ fn token_soup(rng: &mut Rng) -> String {
     s
 }
 
-const EDGE_TEXTS: [&str; 40] = [
+const EDGE_TEXTS: [&str; 45] = [
+    "macro m(y,x) -> jmp y jmp y jmp y jmp y jmp x <-\nlooooooooooooooooooooooooooooooooooooooooooooong:\nstart: m(looooooooooooooooooooooooooooooooooooooooooooong,b)\n",
+    "macro m(x) -> mov ax,1 mov bx,2 mov cx,3 mov dx,4 mov si,5 mov di,6 jmp x <-\nstart: m(q)",
+    "macro m(x) -> loop x <-\nmacro n(x) -> m(x) m(x) <-\nstart:\nn(nowhere)\n",
+    "macro m(x) -> x: <-\nstart:\nm(a)\nm(a)\n",
+    "macro m(x) -> call x <-\nstart: m(zzzzzzzzzzzzzzzzzzzzzzzzzzzzzzzzzzzzzzzzzzzzzzzzzzzzzzzz)\n",
     "",
     "\n",
     " ",
@@ -474,6 +479,15 @@ fn cli_files(rep: &Report, n: usize, seed: u64) {
                     let (_, _, t) = gen_case(seed ^ 0x55, 5 * rng.below(100000));
                     ("assembler-case", t.into_bytes())
                 }
+                3 => {
+                    // print statements whose range ends at, or one past, the last byte of memory
+                    let ds: u32 = *rng.pick(&[0u32, 1, 0x1000, 0xFFF0, 0xFFFF]);
+                    let room = (1u32 << 20) - ds * 16;
+                    let n = (room as i64 + rng.range(-2, 2)).max(0) as u32;
+                    let a = rng.below(1 << 20) as u32;
+                    let m = ((1i64 << 20) - a as i64 + rng.range(-2, 1)).max(0) as u32;
+                    ("print-edge", format!("start:\nmov ax,{}\nmov ds,ax\nprint mem : {}\nprint mem {} : {}\nprint mem {} -> {}\nint 3\nmov bx,1\n", ds, n, a, m, a, (a as u64 + m as u64)).into_bytes())
+                }
                 _ => {
                     let v = valid_program(&mut rng);
                     ("byte-mutation", byte_mutate(&mut rng, v.as_bytes()))
@@ -484,7 +498,7 @@ fn cli_files(rep: &Report, n: usize, seed: u64) {
         // prompts (int 3 / -i) and console input get a mix of valid and garbage answers, then end of input
         let mut stdin: Vec<u8> = Vec::new();
         for _ in 0..rng.below(30) {
-            stdin.extend_from_slice(rng.pick(&["n\n", "n\n", "next\n", "print reg\n", "x\n", "\n", "print mem 0 -> 5\n", "q\n"]).as_bytes());
+            stdin.extend_from_slice(rng.pick(&["n\n", "n\n", "next\n", "print reg\n", "x\n", "\n", "print mem 0 -> 5\n", "q\n", "print mem : 16\n", "print mem : 15\n", "print mem 1048575 : 1\n", "print mem : 1048560\n"]).as_bytes());
         }
         let out = run_cli(&src, &CliOpts { interpreted: interp, stdin: &stdin, env: vec![("VERIF_NOMEM", "1")], timeout_s: 40.0, cap: 16 << 20, ..Default::default() });
         judge_cli(rep, &out, "source-file", family, &src, &stdin, interp, if core { Some(format!("f{}", i)) } else { None });
@@ -506,7 +520,10 @@ fn prompt_line(rng: &mut Rng) -> Vec<u8> {
         6 => b"print mem 1048576 -> 1048577".to_vec(),
         7 => b"print mem 1048575 : 1".to_vec(),
         8 => b"print mem : 1048575".to_vec(),
-        9 => "print r\u{e9}g".as_bytes().to_vec(),
+        9 => {
+            // DS-relative and start:length forms that end exactly at / one past the last byte (program 2 runs with DS=0xFFF0)
+            rng.pick(&["print mem : 255", "print mem : 256", "print mem : 257", "print mem 1048575 : 1", "print mem 1048574 : 2", "print mem 1048575 : 0", "print mem 0 : 1048575", "print mem 1 : 1048575", "print mem 1048575 -> 1048576", "print r\u{e9}g"]).as_bytes().to_vec()
+        }
         10 => char_mutate(rng, "print mem 100 -> 200").into_bytes(),
         _ => char_mutate(rng, "next").into_bytes(),
     }
